@@ -263,6 +263,17 @@ fn run_in(case: &C18Case, nu: &mut Nu) -> Result<CaseInfo, Fail> {
                 )));
             }
             labels.push("spawn-without-content".into());
+            // the same refusal a second time is reported a second time
+            let again = nu.append("g.spawn", ctx, None, None)?;
+            let (frames, ok) = nu.wait(Duration::from_secs(10), |fr| !sourced(fr, &again.id).is_empty())?;
+            let mine = sourced(&frames, &again.id);
+            checks += 1;
+            if !ok || mine.len() != 1 || mine[0].topic != "g.spawn.error" {
+                return Err(gen_fail(format!(
+                    "a second spawn without content must yield its own g.spawn.error; got {:?}",
+                    mine.iter().map(|w| (&w.topic, &w.meta)).collect::<Vec<_>>()
+                )));
+            }
             // a spawn that could not be honoured leaves nothing behind: the next (valid) spawn of
             // that name in that context is accepted and runs
             let sp2 = nu.append("g.spawn", ctx, Some(b"\"after\""), None)?;
